@@ -4,13 +4,17 @@
 open Model
 open Vutil
 
+(* decode a mutex number of lock_table_n 3 (Session/ThreadsModel.v: P_send .. P_out with N = 3) *)
 let cls (m : int) : char * int =
-  if m >= 500 then ('O', m - 500) else if m >= 400 then ('R', m - 400) else if m >= 300 then ('G', -1)
-  else if m >= 200 then ('U', m - 200) else if m >= 100 then ('C', -1) else ('S', m - 10)
+  if m >= 11 then ('O', m - 11) else if m >= 8 then ('R', m - 8) else if m = 7 then ('G', -1)
+  else if m >= 4 then ('U', m - 4) else if m = 3 then ('C', -1) else ('S', m)
 
+(* token = held class, acquired class, relation of the two clients: '=' same client (or both screen-wide),
+   '/' one of the two is screen-wide, '<' the held mutex belongs to the client EARLIER in the client list, '>' later *)
 let token ((h, a) : nat * nat) : string =
   let (ch, sh) = cls (int_of_nat h) and (ca, sa) = cls (int_of_nat a) in
-  Printf.sprintf "%c%c%c" ch ca (if sh = sa then '=' else '/')
+  let rel = if sh = sa then '=' else if sh < 0 || sa < 0 then '/' else if sh < sa then '<' else '>' in
+  Printf.sprintf "%c%c%c" ch ca rel
 
 let uniq l = List.sort_uniq compare l
 let sched_of ws = List.map (fun w -> nat_of_int (int_of_string w)) ws
@@ -39,7 +43,18 @@ let () =
         let r2 = run (sh_step true) sh_finishing r in
         Printf.printf "witness shutdown_repaired finishes=%s gone=%d\n" (b2s (sh_final r2)) (int_of_nat (sh_gone r2));
         let j = run (sj_step false) sj_witness sj_init in
-        Printf.printf "witness shutdown_join freed=%s uaf=%s\n" (b2s (sj_freed j)) (b2s (sj_uaf j))
+        Printf.printf "witness shutdown_join freed=%s uaf=%s\n" (b2s (sj_freed j)) (b2s (sj_uaf j));
+        let e = run (sh_step_cfg cfg_selfail) sh_selfail_witness sh_init in
+        let en = List.exists (fun t -> enabled (sh_step_cfg cfg_selfail) (nat_of_int t) e) [1; 2] in
+        Printf.printf "witness select_failure shut=%s gone=%d input_pc=%d output_waits=%s client_thread_enabled=%s\n"
+          (b2s (sh_shut e)) (int_of_nat (sh_gone e)) (int_of_nat (sh_pcI e)) (b2s (sh_wait e)) (b2s en);
+        let f = run (sh_step_cfg cfg_selfail_fixed) (sh_selfail_witness @ sh_finishing) sh_init in
+        Printf.printf "witness select_failure_fixed finishes=%s gone=%d\n" (b2s (sh_final f)) (int_of_nat (sh_gone f));
+        let n0 = run (nf_step (nat_of_int 0)) nf_gone_witness (nf_init (nat_of_int 0)) in
+        Printf.printf "witness newfb_disconnect returned=%s sendmutex_owner=%d client_thread_pc=%d ok=%s\n"
+          (b2s (int_of_nat (nf_pcA n0) = 7)) (int_of_nat (nf_send n0)) (int_of_nat (nf_pcB n0)) (b2s (nf_ok n0));
+        let n1 = run (nf_step (nat_of_int 1)) nf_new_witness (nf_init (nat_of_int 1)) in
+        Printf.printf "witness newfb_accept bad_unlock=%s\n" (b2s (nf_badunlock n1))
     | "sj" :: rep :: ws ->
         let s = run (sj_step (rep = "1")) (sched_of ws) sj_init in
         Printf.printf "sj final=%s freed=%s uaf=%s\n" (b2s (sj_final s)) (b2s (sj_freed s)) (b2s (sj_uaf s))
@@ -48,6 +63,10 @@ let () =
         let s = run f (sched_of ws) sh_init in
         let en = List.exists (fun t -> enabled f (nat_of_int t) s) [0; 1; 2; 3] in
         Printf.printf "sh final=%s enabled=%s gone=%d\n" (b2s (sh_final s)) (b2s en) (int_of_nat (sh_gone s))
+    | "nf" :: mode :: ws ->
+        let m = nat_of_int (int_of_string mode) in
+        let s = run (nf_step m) (sched_of ws) (nf_init m) in
+        Printf.printf "nf final=%s ok=%s send=%d bad_unlock=%s\n" (b2s (nf_final s)) (b2s (nf_ok s)) (int_of_nat (nf_send s)) (b2s (nf_badunlock s))
     | "it" :: rep :: ws ->
         let s = run (it_step (rep = "1")) (sched_of ws) it_init in
         Printf.printf "it uaf=%s\n" (b2s (it_uaf s))
